@@ -58,6 +58,7 @@ CLAIMS = {
        'unmanaged families); the conclusion is also observed directly after each step.',
   design_ref='DESIGN.md section 4, C07',
   note='Trusted: Coq kernel; device semantics; generator of unmanaged content. PAN-OS / NSX halves are covered under C03/C04 when built.',
+  extra_note=' PAN-OS and NSX halves: for generated two-vsys devices no command addresses anything outside the targeted vsys; NSX approve sessions run against the manager simulator that also holds policies, groups and services of other owners (some with the content of target groups): no changing request addresses an id without the Netspoc prefix.',
   technique='Coq footprint/frame theorem over the device semantics + per-step projection check of real scripts'),
  'C08': dict(
   text='C08_asa_acl_every_prefix_accepted_partial: for the ASA line core every command of every prefix is accepted by the strict device '
@@ -66,7 +67,7 @@ CLAIMS = {
        'sequence number, wrong configuration mode, duplicate route are refusals).',
   design_ref='DESIGN.md section 4, C08',
   note='Trusted: as C01; strictness rules of Cisco/Device.v are the property text. PAN-OS/NSX executability is under C03/C04.',
-  extra_note=' ASA crypto commands are executed on the strict model Cisco/Vpn.v.',
+  extra_note=' ASA crypto commands are executed on the strict model Cisco/Vpn.v. PAN-OS and NSX: every command / request of the scripts of C03 / C04 is executed on the strict models Panos/Device.v and Nsx/Device.v; a refused one is reported here (known finding F-C08-1 = F-C03-2).',
   technique='Coq proof for the ASA line core + strict Coq device executing real scripts'),
  'C10': dict(
   text='C10_asa_acl_resume_partial: after any prefix of the ASA line script the device list is again duplicate-free, and every valid edit '
